@@ -39,6 +39,14 @@ def default_sets(rng):
             regs.append({'name': 'svc:part%d' % i, 'check_str': rng.choice(STR_VALUES[:9]), 'deprecated': ('svc:whole', oldc)})
     if kind in ('changed', 'mixed'):
         regs.append({'name': 'svc:same', 'check_str': rng.choice(STR_VALUES[:9]), 'deprecated': ('svc:same', rng.choice(STR_VALUES[:9]))})
+    if kind == 'split' and rng.random() < 0.5:
+        # another renamed policy registered in the middle of the split's successors
+        regs.insert(2, {'name': 'svc:new1', 'check_str': rng.choice(STR_VALUES[:9]), 'deprecated': ('svc:old1', rng.choice(STR_VALUES[:9]))})
+    if rng.random() < 0.4:
+        # services register their defaults in no particular order
+        head, tail = regs[:1], regs[1:]
+        rng.shuffle(tail)
+        regs = head + tail
     return kind, regs
 
 
